@@ -276,10 +276,15 @@ def write_ndjson(path, events):
 # --------------------------------------------------------------------------------------
 
 def load_known():
-    p = os.path.join(VERIF, "known_findings.json")
-    if not os.path.exists(p):
-        return []
-    return json.load(open(p)).get("findings", [])
+    out = []
+    paths = [os.path.join(VERIF, "known_findings.json")]
+    extra = os.environ.get("VERIF_KNOWN_EXTRA")  # development only
+    if extra:
+        paths.append(extra if os.path.isabs(extra) else os.path.join(VERIF, extra))
+    for p in paths:
+        if os.path.exists(p):
+            out += json.load(open(p)).get("findings", [])
+    return out
 
 
 def known_match(prop, sig):
